@@ -944,7 +944,87 @@ func cafsReplay(args []string) error {
 	}
 	res.Extra["lambda"] = *lambda
 	res.Extra["style"] = *style
+	cafsNamespaces(res, *lambda, *crc)
 	return res.Write(*out)
+}
+
+// cafsNamespaces: instances with a key prefix share one backend. The duplicate flag and the stored blobs are those of the
+// instance's own namespace: a first Put stores every blob under the prefix and says "new" whatever other namespaces
+// hold, a second Put of the same content says "duplicate", and the object reads back through the same prefix.
+func cafsNamespaces(res *vutil.Result, lambda int, crc bool) {
+	bad := func(sig string, exp, got interface{}, detail string) {
+		res.Add(vutil.Mismatch{Beh: -1, Op: "namespace", Sig: sig, Expected: exp, Got: got, Detail: detail})
+	}
+	defer func() {
+		if e := recover(); e != nil {
+			bad(vutil.PanicSig(stack()), nil, fmt.Sprint(e), "namespace scenario")
+		}
+	}()
+	ctx := context.Background()
+	for _, n := range []int{0, 10, lambda, 2*lambda + 7} {
+		content := make([]byte, n)
+		for i := range content {
+			content[i] = byte(splitmix(uint64(i)+977) >> 7)
+		}
+		w := store.NewWorld()
+		v := store.NewView(w, "blob", &store.Ctl{Name: "ns"})
+		var backend storage.Store = v
+		if crc {
+			backend = &store.CRCView{View: v}
+		} else {
+			v.NoCRC = true
+		}
+		mk := func(prefix string) cafs.Fs {
+			opts := []cafs.Option{cafs.LeafSize(uint32(lambda)), cafs.Backend(backend), cafs.WithRetry(false), cafs.Logger(zap.NewNop())}
+			if prefix != "" {
+				opts = append(opts, cafs.Prefix(prefix))
+			}
+			f, err := cafs.New(opts...)
+			if err != nil {
+				panic(err)
+			}
+			return f
+		}
+		var key0 cafs.Key
+		for pi, prefix := range []string{"", "ns1/", "ns2/"} {
+			what := fmt.Sprintf("%d bytes, prefix %q", n, prefix)
+			for round := 0; round < 2; round++ {
+				res.Steps++
+				pr, err := mk(prefix).Put(ctx, hideWriterTo{bytes.NewReader(content)})
+				if err != nil {
+					bad("namespace/put-error", "ok", err.Error(), what)
+					return
+				}
+				if pi == 0 && round == 0 {
+					key0 = pr.Key
+				}
+				if pr.Key != key0 {
+					bad("namespace/key-depends-on-prefix", key0.String(), pr.Key.String(), what)
+				}
+				if pr.Found != (round == 1) {
+					bad("namespace/duplicate-flag", round == 1, pr.Found, fmt.Sprintf("%s, Put number %d of this content through this prefix", what, round+1))
+				}
+			}
+			for k := range w.Snapshot("blob") {
+				if pi == 0 && (strings.HasPrefix(k, "ns1/") || strings.HasPrefix(k, "ns2/")) {
+					bad("namespace/foreign-blob", "no blob under another prefix", k, what)
+				}
+			}
+			if _, ok := w.Snapshot("blob")[prefix+key0.String()]; !ok {
+				bad("namespace/root-not-stored", prefix+key0.String(), nil, what)
+			}
+			rd, err := mk(prefix).Get(ctx, key0)
+			if err != nil {
+				bad("namespace/get-error", "ok", err.Error(), what)
+				continue
+			}
+			got, err := ioutil.ReadAll(onlyReader{rd})
+			_ = rd.Close()
+			if err != nil || !bytes.Equal(got, content) {
+				bad("namespace/read-back", len(content), len(got), fmt.Sprintf("%s: %v", what, err))
+			}
+		}
+	}
 }
 
 // brokenSource delivers its data and then fails (not with io.EOF).
